@@ -15,6 +15,26 @@ CHECKS = {
             "if it equals the textbook row it recomputes. Exhaustive on the lattice, sampled in the continuous EW parameters.",
             "Trusted: TLC, exact rational arithmetic of Rat.tla (TLC raises on overflow), eko's interpolation basis being a "
             "Kronecker delta at nodes. Neutrino NC beams compared at zero polarisation only.", "DESIGN.md 7/C02"),
+    "C07": ("model_checking",
+            "TLC partition theorems on exact kernel bags + TLC-emitted relation instances executed as real runs + TLC trace validation",
+            "TLC proves the four partition theorems (FFNS total = light + massive flavours, ZM total = light, FONLL full = massless + "
+            "massive, sum over NCPositivityCharge = unrestricted) as equalities of exact-rational kernel bags for every cell of the "
+            "lattice; the relation instances TLC emits are executed with the real runner and the operators compared entry-wise for "
+            "every order key; TLC accepts a recorded line only if the spec asserts the relation there and the residual is within 1e-12.",
+            "Trusted: TLC, numpy. Lattice sampled in kinematics (two x per run) and EW point.", "DESIGN.md 7/C07"),
+    "C12": ("model_checking",
+            "TLC isospin theorems on exact kernel bags (incl. heap-level in-place rotation model) + (target, proton) real-run pairs "
+            "+ TLC trace validation",
+            "TLC proves that rotating each kernel's weights once is the PDF rotation, that the neutron is the u<->d swap, and that the "
+            "code's in-place loop equals it iff no u/d-asymmetric weight dict is shared; TLC-emitted (target, proton) pairs, targets "
+            "with Z/A outside {0,1/2,1}, all schemes incl. FFN0 with PTO != PTODIS, and the named-target table are run for real.",
+            "Trusted: TLC, numpy. Iron/lead appear only in the named-target relations (their Z/A overflow exact 32-bit arithmetic).",
+            "DESIGN.md 7/C12"),
+    "C13": ("model_checking",
+            "TLC symmetry theorems on the rational EW lattice and kernel bags + paired real runs + TLC trace validation",
+            "TLC proves NC(eta=0)=EM, positron(P)=electron(-P), charge conjugation (arbitrary CKM, F3 sign) and equal-charge row "
+            "equality on the full rational EW lattice; TLC-emitted pairs of real runs are compared row-wise for every order key.",
+            "Trusted: TLC, numpy.", "DESIGN.md 7/C13"),
 }
 
 PENDING = {}
